@@ -55,6 +55,10 @@ def patterns(R, tier):
         else:
             spec = {'sig': [rng.choice((1, -1, 0)) for _ in range(d)], 'start': rng.choice((None, 0, 1))}
         yield spec, None, None, 'random'
+    # large algebras (tables filled on demand; generators beyond the 8th bit): sparse operands, direct oracles only
+    for i in range(10 if tier == 'quick' else 200):
+        d = rng.choice((7, 8, 9, 9, 10))
+        yield {'sig': [rng.choice((1, -1, 1, 0)) for _ in range(d)], 'start': None}, 'large', None, 'large'
 
 
 def relations(R, spec, alg, x, y, outs):
@@ -84,6 +88,14 @@ def run(R, tier):
         if key not in cache:
             cache[key] = algs.make_impl(spec)
         alg = cache[key]
+        large = ka == 'large'
+        if large:
+            n = 2 ** alg.d
+            top = 1 << (alg.d - 1)
+            ka = tuple({rng.randrange(n) | (top if rng.random() < 0.6 else 0) for _ in range(rng.randint(1, 4))})
+            kb = tuple({rng.randrange(n) | (top if rng.random() < 0.6 else 0) for _ in range(rng.randint(1, 4))})
+            if rng.random() < 0.5:       # a vector and a bivector sharing the highest generator
+                ka, kb = (top,), (top | 1, 2 | 4)
         if ka is None:
             ka, sa = oc.random_keys(rng, alg)
             kb, sb = oc.random_keys(rng, alg)
@@ -92,9 +104,14 @@ def run(R, tier):
         y = list(zip(kb, oc.random_values(rng, len(kb))))
         outs = {}
         for op in OPS:
-            c = oc.case_for(pool, spec, alg, op, [x, y])
-            cases.append(c)
-            out = c['meta']['impl']
+            if large:
+                kind_, out = oc.call_impl(alg, op, oc.make_mv(alg, ka, [v for _, v in x]), oc.make_mv(alg, kb, [v for _, v in y]))
+                if kind_ != 'ok':
+                    out = f'{type(out).__name__}: {out}'
+            else:
+                c = oc.case_for(pool, spec, alg, op, [x, y])
+                cases.append(c)
+                out = c['meta']['impl']
             R.count(tag); R.count(f'op={op}'); R.count(f'd={alg.d}')
             R.case((algs.describe(spec), op, ka, kb), isinstance(out, list) and len(out) > 0,
                    sample={'algebra': algs.describe(spec), 'op': op, 'a': x, 'b': y, 'result': out})
